@@ -182,6 +182,41 @@ def check_entrypoint(run, case):
     finally:
         repo.drop_rules(name)
 
+def check_cli_trained(run, case):
+    """The same agreement for a ruleset trained through the real command line (trainer.py): the per-level counts it saves are the tally of the levels the
+    files give the accepted passwords, and the scorer reports those levels.  (Option defaults live in the command-line front end.)"""
+    from .. import cli
+    from . import c13
+    sdir = repo.scratch()
+    tf = os.path.join(sdir, f'c11cli_{os.getpid()}.txt')
+    nm = f'c11cli_{os.getpid()}'
+    path = os.path.join(sdir, 'Rules', nm)
+    items = [(p, k) for p, k in case['items']]
+    open(tf, 'wb').write(trainlists.render_plain(items, case['encoding']))
+    try:
+        out, err, rc, to = cli.run_cli('trainer.py', ['-r', nm, '-t', tf, '-e', case['encoding'], '-c', str(case['coverage']), '-n', str(case['ngram']), '-a', str(case['alphabet'])],
+                                       stdin_mode='devnull', timeout=120)
+        run.ev('trainer_cli_runs')
+        if to or not os.path.exists(os.path.join(path, 'Omen', 'omen_pws_per_level.txt')):
+            run.ev('trainings_not_completed'); run.inconc('training did not complete'); return
+        model = oracles.OmenModel(os.path.join(path, 'Omen'))
+        accepted = [p for p, k in items for _ in range(k) if oracles.valid_password(p)]
+        saved = {int(v): int(p_) for v, p_ in oracles.read_rows(os.path.join(path, 'Omen', 'omen_pws_per_level.txt'), case['encoding'])}
+        mine = Counter(model.level(pw) for pw in accepted)
+        if saved != dict(mine):
+            run.violation(f'trainer.py (ngram {case["ngram"]}): omen_pws_per_level.txt {dict(sorted(saved.items()))} differs from the levels the written model gives the training '
+                          f'passwords {dict(sorted(mine.items()))}', case, observed=saved, expected=dict(mine)); return
+        sc = c13.load_scorer(path)
+        for pw in dict.fromkeys(accepted):
+            if sc.omen.parse(pw) != model.level(pw):
+                run.violation(f'CLI-trained ruleset: scorer level of {pw!r} is {sc.omen.parse(pw)}, the files give {model.level(pw)}', case); return
+        run.ev('cli_trained_rulesets_compared')
+        run.case(h(['clitrained', case['items'], case['ngram']]))
+    finally:
+        os.remove(tf)
+        import shutil
+        shutil.rmtree(path, ignore_errors=True)
+
 def gen_entry_case(rng):
     case = trained.gen_train_case(rng, encodings=['utf-8', 'utf-8', 'latin-1'], coverages=(0.6,), max_len_choices=(21,))
     case['alphabet'], case['coverage'] = 100, 0.6
@@ -190,7 +225,7 @@ def gen_entry_case(rng):
     return case
 
 def run(run, rng):
-    run.required_events = ['level_comparisons', 'per_level_files_compared', 'nontrivial_candidates', 'entrypoint_level_comparisons', 'email_website_strings_with_a_level']
+    run.required_events = ['level_comparisons', 'per_level_files_compared', 'nontrivial_candidates', 'entrypoint_level_comparisons', 'email_website_strings_with_a_level', 'cli_trained_rulesets_compared']
     run.min_distinct = 8
     run.assumptions = ['max_len 5-8 is a harness bound handed to run_trainer (same code path as the default 21) so that the generator side can be enumerated',
                        'models above 60000 strings are not decided']
@@ -198,9 +233,16 @@ def run(run, rng):
         run.guard(gen_case(rng), check_case, seconds=240)
     for i in range(max(3, N[run.tier] // 6)):
         run.guard(gen_entry_case(rng), check_entrypoint, seconds=240)
+    for i in range(max(4, N[run.tier] // 5)):
+        c = gen_case(rng)
+        c['prefixcount'] = False
+        c['cli'] = True
+        run.guard(c, check_cli_trained, seconds=240)
 
 def replay(run, case):
-    if case['case'].get('entry'):
+    if case['case'].get('cli'):
+        check_cli_trained(run, case['case'])
+    elif case['case'].get('entry'):
         check_entrypoint(run, case['case'])
     else:
         check_case(run, case['case'])
